@@ -371,6 +371,36 @@ func checkEnvelope(c *core.Ctx, rq *c07Req, res map[string]interface{}, cfgName 
 }
 
 // tokenBoundaries returns the byte offsets at which text can be cut between tokens.
+// tokenPerLine puts a line break after every token of a one-line request (strings stay whole; $name, @name and ...Name stay glued).
+func tokenPerLine(text string) string {
+	var b strings.Builder
+	inStr := false
+	for i := 0; i < len(text); i++ {
+		ch := text[i]
+		if ch == '"' {
+			inStr = !inStr
+		}
+		if inStr {
+			b.WriteByte(ch)
+			continue
+		}
+		switch ch {
+		case ' ':
+			b.WriteByte('\n')
+		case '{', '(', ',':
+			b.WriteByte(ch)
+			b.WriteByte('\n')
+		case '}', ')', ':', '=':
+			b.WriteByte('\n')
+			b.WriteByte(ch)
+			b.WriteByte('\n')
+		default:
+			b.WriteByte(ch)
+		}
+	}
+	return b.String()
+}
+
 func tokenBoundaries(text string) []int {
 	var out []int
 	inStr := false
@@ -435,6 +465,19 @@ func runC07(c *core.Ctx) {
 		})
 	}
 
+	// every request rendered on one line is also submitted with a line break after every token (positions computed after a
+	// one-byte lookahead land on the next line, with a column <= 0, when the token ends its line): only the generic location
+	// demands apply to that text (positive, inside the document)
+	run0 := run
+	run = func(rq *c07Req) {
+		run0(rq)
+		if rq.Layout == world.LOneLine && !strings.HasPrefix(rq.Kind, "string-content") {
+			r2 := *rq
+			r2.Kind, r2.Text, r2.Doc = rq.Kind+"+token-per-line", tokenPerLine(rq.Text), nil
+			r2.Layout = world.NLayouts
+			run0(&r2)
+		}
+	}
 	docs := world.BaseDocs()
 	// numeric leaves at root, nested and list-element positions (the nasty graph holds floats beyond float32)
 	docs = append(docs, world.Q(world.F("f"), world.F("a", world.F("f"), world.F("i")), world.F("kids", world.F("f")), world.F("ints")))
